@@ -1,10 +1,10 @@
 ---------------------------- MODULE Trace_Errors ----------------------------
 (* Validates recorded outcomes (code -> spec) against the contract of Errors.tla.
-   Records: [id, ffi, api, cls, origin].  One VERDICT line per rejected record. *)
+   Records: [id, ffi, api, cls, origin, need].  One VERDICT line per rejected record. *)
 EXTENDS Errors, Json, IOUtils
 
 Recs == JsonDeserialize(IOEnv.TRACE_FILE)
 ASSUME /\ \A i \in 1..Len(Recs) : Allowed(Recs[i]) \/ PrintT(<<"VERDICT", Recs[i].id, Clause(Recs[i])>>)
        /\ PrintT(<<"CHECKED", Len(Recs)>>)
-TSpec == e = [ffi |-> "inline", api |-> "cdef", cls |-> "ok", origin |-> "-"] /\ [][UNCHANGED e]_e
+TSpec == e = [ffi |-> "inline", api |-> "cdef", cls |-> "ok", origin |-> "-", need |-> 0] /\ [][UNCHANGED e]_e
 =============================================================================
